@@ -20,7 +20,7 @@ ASSUMPTIONS = ["vf/refdim.py rules define the reference inference (property stat
                "value equality is judged at 3 random points with 1e-10 relative tolerance"]
 N = {"quick": dict(trees=3200, depth=4), "thorough": dict(trees=40000, depth=6)}
 SHARD_TIMEOUT = {"quick": 300, "thorough": 2400}
-MIN_REACH = {"quick": {"dimension_compared": 1200, "error_both": 150, "value_compared": 1000, "diagram_compared": 400,
+MIN_REACH = {"quick": {"native_unit_or_wrapper_leaf": 300, "dimension_compared": 1200, "error_both": 150, "value_compared": 1000, "diagram_compared": 400,
                        "zero_quantity_in_sum_or_minmax": 40, "derivative": 50},
              "thorough": {"dimension_compared": 15000, "error_both": 2000, "value_compared": 12000, "diagram_compared": 5000}}
 
@@ -52,6 +52,10 @@ class Gen:
         self.funs = [Function(f"f{i}", [self.syms[0]], r.choice(self.dims)) for i in range(3)]
         self.si = dimension_to_si_unit
         self.Quantity = Quantity
+        # leaves that carry a dimension without being library symbols: native SymPy units/constants and Symbolic wrappers
+        from symplyphysics.core.operations.symbolic import Average, FiniteDifference, ExactDifferential
+        self.native = [units.meter, units.second, units.kilogram, units.speed_of_light, units.newton, units.planck]
+        self.wrappers = [W(s_) for W, s_ in zip((Average, FiniteDifference, ExactDifferential, Average), self.syms[:4])]
 
         def q_of(dim, mag):
             return Quantity(mag * dimension_to_si_unit(dim))
@@ -68,8 +72,12 @@ class Gen:
     def leaf(self):
         r, sp = self.r, self.sp
         k = r.random()
-        if k < 0.45:
+        if k < 0.40:
             return r.choice(self.syms)
+        if k < 0.46:
+            return r.choice(self.native)
+        if k < 0.50:
+            return r.choice(self.wrappers)
         if k < 0.68:
             return r.choice(self.qs)
         if k < 0.88:
@@ -198,6 +206,8 @@ def check_tree(e, g, rec, origin, r):
         rec.hit("zero_quantity_in_sum_or_minmax")
     if e.has(sympy.Derivative):
         rec.hit("derivative")
+    if any(a in g.native for a in e.atoms(SymQuantity)) or any(a in g.wrappers for a in e.atoms(sympy.Symbol)):
+        rec.hit("native_unit_or_wrapper_leaf")
     if rd is None and le is None:
         rec.hit("error_both")
         rec.hit("error:" + rerr)
